@@ -10,6 +10,7 @@ the resulting values raises.
 import copy
 import json
 import math
+import os
 import warnings
 
 import numpy as np
@@ -649,11 +650,13 @@ def configs(tier):
     return out
 
 
-GROUPS = {"setter_bfs": case_step}
+GROUPS = {"setter_bfs": case_step, "setter_bfs_d3": case_step}
 
 
 def run(chk):
-    depth = 2 if chk.tier == "quick" else 3
+    # thorough: depth 2 from every (class x kind x dim) start, depth 3 from two starts (with the alphabet of the later
+    # mutation rounds a depth-3 search from all 46 starts is a multi-hour run: ~1e6 histories)
+    depth = 2
     cfgs = configs(chk.tier)
     chk.bfs(
         "setter_bfs",
@@ -663,5 +666,8 @@ def run(chk):
         depth,
         rule="BFS over all sequences of setter operations (var, var_raw, len_scale scalar/list, anis, angles, nugget, optional arguments at/inside/outside bounds, dim, integral_scale, rescale, bounds incl. invalid specs) up to the depth bound from each (class x plain/temporal/latlon/latlon+temporal x dim) start; state = reference dict; every history replayed on a fresh real model",
     )
+    if chk.tier != "quick":
+        d3 = [c for c in cfgs if (c["cls"], c["dim"], c["latlon"], c["temporal"]) in (("Gaussian", 2, False, False), ("Stable", 1, False, False))]
+        chk.bfs("setter_bfs_d3", case_step, d3, lambda cfg: ops_for(cfg, chk.tier), 3, rule="the same search to depth 3 from the starts Gaussian (dim 2) and Stable (dim 1)")
     chk.assume("legality of a state is defined by direct construction (a fresh model with the same values must be constructible); operations outside the alphabet (subclassing, pickling, hankel_kw) are not explored")
-    chk.assume(f"operation sequences up to depth {depth}; states reached by a failing step are reported but not expanded")
+    chk.assume(f"operation sequences up to depth {depth} (thorough: 3 from two starts); states reached by a failing step are reported but not expanded")
